@@ -388,3 +388,17 @@ _app("C10", "text", " The loop around the kernels - _base.train (targets from th
 for _p in ("C06", "C11", "C16"):
     _app(_p, "text", " The R-vs-Q instance gap is closed by proof for this property's numeric runner (coq/proofs/QR_bridge_%s.v; for the offline side under the solver relation that "
          "coq/proofs/QSolve_proofs.v provides): a verdict chk_* = true is a statement about the R-instance." % _p)
+_app("C05", "text", " The feedback machinery (state_proxy / set_state_proxy, _load_proxys / _clean_proxys, the clamp, call_distant_node, Node.with_feedback and Model.with_feedback) is ALSO translated "
+     "from the current source text on every run (tools/vlib/py2coq_fb.py -> coq/gen/Gen_feedback.v) and proved equal to the ProxySem / SubSender operations for every with-body and both outcomes; "
+     "the low-level timing theorem holds of the translated call_distant_node (C05_generated_*, closed under the global context).")
+_app("C05", "technique", " + feedback machinery translated on every run and proved equal to the low-level model (translator tie)")
+_app("C16", "text", " The legacy v0.2 state update and output computation are ALSO translated, and load_compat's keyword table extracted, from the current source on every run "
+     "(tools/vlib/la_specs_legacy.py, py2coq_compat.py -> coq/gen/Gen_legacy.v, Gen_compat.v) and proved equal to legacy_step / legacy_out / convert, so C16_load_compat_equiv is a statement about "
+     "the translated step and the extracted conversion (C16_generated_*).")
+_app("C16", "technique", " + legacy kernels translated and the load_compat table extracted on every run (translator tie)")
+_app("C11", "text", " The node-level training skeleton (is_trainable setter, initialize_buffers, clean_buffers incl. the `_X = _Y = []` aliasing, the default partial_backward, Node.partial_fit, Node.fit "
+     "with its except / re-raise clean-ups) is ALSO translated from the current source text on every run (tools/vlib/py2coq_fit.py -> coq/gen/Gen_fit.v) and proved to be the TrainSem operations, "
+     "outcome included, for arbitrary learning-rule callbacks raising at any point; fit always ends clean; session isolation transfers (C11_generated_*, closed under the global context).")
+_app("C11", "note", "; tie (T): py2coq_fit.py and base/FitPrelude.v (list objects with identity, the _buffers dict, try/except/re-raise); check_xy and the initialisation are parameters; "
+     "create_buffer / set_buffer (memmaps) and Model.fit stay on tie (H)")
+_app("C11", "technique", " + training skeleton translated on every run and proved equal to the model (translator tie)")
